@@ -94,6 +94,7 @@ class ArchiveScanner:
 
     def scan(self, verbose):
         found = False
+        self.__seen = set()
         try:
             self.__db.execute("BEGIN")
             for l1 in self.__archiver.listDir("."):
@@ -106,6 +107,14 @@ class ArchiveScanner:
                         if not m: continue
                         found = True
                         self.__scan(os.path.join(l2, l3), verbose)
+
+            # Forget artifacts that vanished from the archive since the last scan.
+            for bid in self.getBuildIds():
+                if bid in self.__seen: continue
+                self.__db.execute("DELETE FROM files WHERE bid=? AND arch=?",
+                    (bid, self.__archiveKey))
+                self.__db.execute("DELETE FROM refs WHERE bid=? AND arch=?",
+                    (bid, self.__archiveKey))
         except OSError as e:
             raise BobError("Error scanning archive: " + str(e))
         finally:
@@ -120,6 +129,7 @@ class ArchiveScanner:
             st = self.__archiver.stat(fileName)
             bidHex, sep, suffix = fileName.partition("-")
             bid = bytes.fromhex(bidHex[0:2] + bidHex[3:5] + bidHex[6:])
+            self.__seen.add(bid)
 
             # Validate entry in caching db. Delete entry if stat has changed.
             # The database will clean the 'refs' table automatically.
